@@ -1100,7 +1100,27 @@ def committed_value(t):
     return t.spk.commands[1]
 
 
-def honest_path(tmpl, m, n, signers, commit=None, n_in=1, idx=0):
+EDITS = ("amount", "other_sequence", "other_prev_index", "locktime")
+
+
+def apply_edit(md, tx, idx, edit, val):
+    """change one committed field in place (SIGHASH_ALL commits to all of them in every digest algorithm)"""
+    other = 1 - idx
+    if edit == "amount":
+        tx.tx_outs[0].amount = val
+    elif edit == "other_sequence":
+        tx.tx_ins[other].sequence = md.tx.Sequence(val) if hasattr(md.tx, "Sequence") else val
+    elif edit == "other_prev_index":
+        tx.tx_ins[other].prev_index = val
+    elif edit == "locktime":
+        tx.locktime = md.tx.Locktime(val) if hasattr(md.tx, "Locktime") else val
+
+
+def edit_old_value(f, idx, edit):
+    return {"amount": f["amount"], "other_sequence": 0xFFFFFFFD, "other_prev_index": 1 - idx, "locktime": f["locktime"]}[edit]
+
+
+def honest_path(tmpl, m, n, signers, commit=None, n_in=1, idx=0, edit="amount"):
     """commit=None: O2 (the spend must verify iff enough distinct keys signed); commit='wrong': O3 (the scriptPubKey commits to a
     different hash / output key: the fully signed spend must be rejected)"""
     reset_path()
@@ -1138,9 +1158,9 @@ def honest_path(tmpl, m, n, signers, commit=None, n_in=1, idx=0):
         if ok:
             UNFORGEABLE[0] = True
             try:
-                new_amt = SI.var("new_amount", 0, (1 << 63) - 1)
-                assume_nq(new_amt != f["amount"])
-                tx.tx_outs[0].amount = new_amt
+                new_amt = SI.var("new_amount", 0, (1 << 63) - 1 if edit == "amount" else 0xFFFFFFFF)
+                assume_nq(new_amt != edit_old_value(f, idx, edit))
+                apply_edit(t.md, tx, idx, edit, new_amt)
                 try:
                     edited = bool(tx.verify_input(idx))
                 except Exception:
@@ -1153,12 +1173,13 @@ def honest_path(tmpl, m, n, signers, commit=None, n_in=1, idx=0):
              "tx": dict({v: env[v] for v in TXVARS}, prev=core.bytes_env(env, "prev", 32).hex())}
         if commit == "edited":
             w["new_amount"] = env.get("new_amount", 0)
+            w["edit"] = edit
         elif commit:
             w["hx"] = core.bytes_env(env, "hx", len(good)).hex()
         return w
     if commit == "edited":
         if ok:
-            check(not edited, "a signed spend still verifies on the same Tx object after a committed output amount was changed in place",
+            check(not edited, f"a signed spend still verifies on the same Tx object after a committed field ({edit}) was changed in place",
                   witness=wfn)
             return "edited-rejected" if not edited else "edited-accepted"
         check(ok, "a spend signed through the library with the required keys does not verify", witness=wfn)
@@ -1173,7 +1194,12 @@ def honest_path(tmpl, m, n, signers, commit=None, n_in=1, idx=0):
 
 
 def ob_honest(tmpl, m, n, cases, commit=None):
-    runs = [sym_run(lambda: honest_path(tmpl, m, n, tuple(sg), commit), timeout_ms=60000, max_violations=2) for sg in cases]
+    if commit == "edited":
+        runs = [sym_run(lambda: honest_path(tmpl, m, n, tuple(sg), commit, n_in=1 if ed in ("amount", "locktime") else 2, idx=ix, edit=ed),
+                        timeout_ms=60000, max_violations=2)
+                for sg in cases for ed in EDITS for ix in ((0,) if ed in ("amount", "locktime") else (0, 1))]
+    else:
+        runs = [sym_run(lambda: honest_path(tmpl, m, n, tuple(sg), commit), timeout_ms=60000, max_violations=2) for sg in cases]
     r = merge_runs(runs)
     r["sample"] = {"template": tmpl, "m": m, "n": n, "signer sets": [list(c) for c in cases], "commitment": commit or "genuine",
                    "keys / signatures / transaction fields": "symbolic"}
@@ -1205,13 +1231,16 @@ def replay_honest(w):
     if w.get("commit") == "edited":
         if not ok:
             return {"violated": True, "observed": f"{w['template']}: honestly signed spend does not verify ({how})"}
-        tx.tx_outs[0].amount = w["new_amount"] if w["new_amount"] != tx.tx_outs[0].amount else tx.tx_outs[0].amount + 1
+        ed = w.get("edit", "amount")
+        old = edit_old_value(f, w["idx"], ed)
+        nv = w["new_amount"] if w["new_amount"] != old else (old + 1 if ed == "amount" else (old + 1) % 0xFFFFFFFF)
+        apply_edit(t.md, tx, w["idx"], ed, nv)
         try:
             ok2 = bool(tx.verify_input(w["idx"]))
         except Exception:
             ok2 = False
-        return {"violated": ok2, "observed": f"{w['template']} {w['m']}-of-{w['n']}: verified, then tx_outs[0].amount changed in place on the "
-                                             f"same object, verify_input again -> {ok2}"}
+        return {"violated": ok2, "observed": f"{w['template']} {w['m']}-of-{w['n']} ({w['n_in']} input(s), input {w['idx']} signed with SIGHASH_ALL): verified, "
+                                             f"then {ed} changed in place from {old} to {nv} on the same object, verify_input again -> {ok2}"}
     enough = signers == ("keypath",) or len(set(signers)) >= t.need
     expect = enough and not w.get("commit")
     return {"violated": ok != expect,
